@@ -180,5 +180,8 @@ fixed("C18", "4b8fdb3", ["crash:panic: sync: WaitGroup is reused before previous
 fixed("C03", "2cff64a", ["c03:ET-async:%s:close-not-detected" % k for k in ("peer-close-in-handler", "peer-reset", "peer-close")],
       "EPOLLET + AsyncReadInPoller: the peer sends and closes while the reading job of the connection is running (data handler busy); the hang-up with unread data is left to the job, whose last counted pass consumes the rest with a short read and returns without having seen the end of the stream - no further edge comes, the connection stays open for good (1 of 2880 thorough cases by chance; scenario peer-close-in-handler holds the handler and meets it in every ET-async cell)")
 
+fixed("C17", "6145046", ["c17:%s:fitting-write-not-accepted" % m for m in ("LT", "ET", "ONESHOT")],
+      "Conn.Writev with an empty write queue on a socket that takes nothing returns (0, EAGAIN) to the caller instead of caching the input as Write does: a write that fits the budget is not accepted, and no writing event is requested (met first by the C11 workload connq as a refused Writev; C17 now fails any transient refusal of a fitting Write/Writev; 54 of 324 quick cases)")
+
 json.dump(F, open("/verif/known_findings.json", "w"), indent=1)
 print("wrote %d entries (%d known)" % (len(F), sum(1 for f in F if f["status"] == "known")))
